@@ -179,7 +179,38 @@ example :
     Src.renet.packet.Packet.to_bytes (.Ack 300 [⟨10, 20⟩, ⟨35, 40⟩]) (OctetsMut.with_slice (List.replicate 7 0)) =
       .err .BufferTooShort := by decide +kernel
 
-/-! `Packet::from_bytes` is translated too (generated `Src.renet.packet.Packet.from_bytes`); test vectors: -/
+/-- `Packet::from_bytes` on a read cursor over `pre ++ rest` standing after `pre` (every byte sequence, every
+    position): it never panics; it returns the model decoder's packet and leaves the cursor where the model's
+    remaining input starts, or fails with the model's error. -/
+theorem packet_from_bytes (pre rest : Bytes) :
+    Src.renet.packet.Packet.from_bytes ⟨toNats (pre ++ rest), pre.length⟩ =
+      match Packet.decode rest with
+      | .ok (p, r) => .ok (⟨toNats (pre ++ rest), (pre ++ rest).length - r.length⟩, reprPacket p)
+      | .error e => .err (reprSerErr e) := by
+  have h := from_bytes_eq (pre ++ rest) rest (List.suffix_append pre rest)
+  have hc : cur (pre ++ rest) rest = ⟨toNats (pre ++ rest), pre.length⟩ := by
+    simp [cur]
+  rw [hc] at h
+  rw [h]
+  cases Packet.decode rest with
+  | error e => rfl
+  | ok x => rfl
+
+/-- on a fresh cursor: the packet / error of the model's `Packet.fromBytes` -/
+theorem packet_from_bytes_fresh (buf : Bytes) :
+    mapRes Prod.snd id (Src.renet.packet.Packet.from_bytes (Octets.with_slice (toNats buf))) =
+      match Packet.fromBytes buf with
+      | .ok p => .ok (reprPacket p)
+      | .error e => .err (reprSerErr e) := by
+  have h := packet_from_bytes [] buf
+  simp only [List.nil_append, List.length_nil] at h
+  unfold Octets.with_slice Packet.fromBytes
+  rw [h]
+  cases Packet.decode buf with
+  | error e => rfl
+  | ok x => rfl
+
+/-! test vectors for the generated `from_bytes` -/
 example :
     Src.renet.packet.Packet.from_bytes (Octets.with_slice [0, 5, 1, 0, 1, 7, 3, 9, 9, 9, 0, 0]) =
       .ok (⟨[0, 5, 1, 0, 1, 7, 3, 9, 9, 9, 0, 0], 10⟩, .SmallReliable 5 1 [(7, [9, 9, 9])]) := by decide +kernel
